@@ -1238,8 +1238,9 @@ type pauseRec struct {
 func (w *world) probe() string {
 	n := len(w.c2s) - 1
 	w.probeN++
-	out := fmt.Sprintf("probe-out-%d$ \r\n", w.probeN)
-	in := fmt.Sprintf("probe-in-%d", w.probeN)
+	// near-misses of everything the filter looks for ride along with the probe
+	out := fmt.Sprintf("probe-out-%d ::TRZSZ:TRANSFER:X:1.1.8:77 **\x18B0 \x1b]52;x; <ENABLE_TRZSZ_TRACE_LOG $ \r\n", w.probeN)
+	in := fmt.Sprintf("probe-in-%d /no/such ", w.probeN)
 	w.s2c[n].Write([]byte(out))
 	w.keys.Write([]byte(in))
 	vs.WaitSettled(func() bool {
